@@ -1300,10 +1300,12 @@ class NiftiWrapper(object):
             return meta_shape[3:] == img_shape[3:]
 
         hdr = self.nii_img.header
+        slice_dim = hdr.get_dim_info()[2]
+        if slice_dim is None:
+            return False
         if self.meta_ext.n_slices != hdr.get_n_slices():
             return False
 
-        slice_dim = hdr.get_dim_info()[2]
         slice_dir = self.nii_img.affine[slice_dim, :3]
         slices_aligned = np.allclose(slice_dir,
                                      self.meta_ext.slice_normal,
